@@ -29,26 +29,60 @@ Fixpoint canon (o : list (option cand)) (m : list (cand * nat)) : list Z :=
       end
   end.
 
-(* the harness finishes every case the same way: the agent is stepped 3n+3
-   more times, then every flush n+4 times *)
-Definition full_schedule (n nflush : nat) (sch : list Z) : list nat :=
-  filter (fun t => Nat.leb t nflush) (map Z.to_nat (filter (fun z => Z.leb 0 z) sch))
-  ++ repeat 0 (3 * n + 3)
-  ++ flat_map (fun j => repeat (S j) (n + 4)) (seq 0 nflush).
+(* schedule tokens of the harness: 0 the agent's callback goroutine, j+1 the
+   j-th flushCandidates call, 100 the ICE restart; the harness finishes every
+   case the same way: the agent 3n+3 times, every flush 2n+4 times, then (if the
+   case has a restart) the restart, the agent 3n+3 times and every flush once more *)
+Definition decode (nflush nrestart : nat) (z : Z) : option tid :=
+  if (z <? 0)%Z then None else
+  let t := Z.to_nat z in
+  if t =? 0 then Some TAgent
+  else if t <=? nflush then Some (TFlush (t - 1))
+  else if (t =? 100) && (0 <? nrestart) then Some TRestart
+  else None.
 
-Definition run_sched (inp : Z * Z * Z * list Z) : V :=
-  match inp with
-  | (poolsize, n, nflush, sch) =>
-      let n := Z.to_nat n in
-      let nflush := Z.to_nat nflush in
-      let r := run_trace (init (Z.to_nat poolsize) (seq 1 n) nflush) (full_schedule n nflush sch) in
-      VL [VZ (flags_to_Z (snd r)); VL (map VZ (canon (out (fst r)) []))]
+Fixpoint decode_all (nflush nrestart : nat) (l : list Z) : list tid :=
+  match l with
+  | [] => []
+  | z :: t => match decode nflush nrestart z with
+              | Some x => x :: decode_all nflush nrestart t
+              | None => decode_all nflush nrestart t
+              end
   end.
 
-(* the code before the repair (Model/Gather.v part B) *)
-Definition run_sched_legacy (inp : Z * Z * Z * list Z) : V :=
+Definition full_schedule (n nflush nrestart : nat) (sch : list Z) : list tid :=
+  decode_all nflush nrestart sch
+  ++ repeat TAgent (3 * n + 3)
+  ++ flat_map (fun j => repeat (TFlush j) (2 * n + 4)) (seq 0 nflush)
+  ++ (if 0 <? nrestart
+      then [TRestart] ++ repeat TAgent (3 * n + 3) ++ map TFlush (seq 0 nflush)
+      else []).
+
+(* cycle 0 gathers candidates 1..n, the cycle after the restart n+1..2n; on the
+   real agent every cycle completes (the harness restarts only when it has) *)
+Definition sched_init (poolsize n nflush nrestart : nat) : st :=
+  init poolsize (seq 1 n, true)
+       (if 0 <? nrestart then [(seq (S n) n, true)] else []) nflush.
+
+Definition run_sched_fx (fx : bool) (inp : Z * Z * Z * Z * list Z) : V :=
   match inp with
-  | (poolsize, n, nflush, sch) =>
+  | (poolsize, n, nflush, nrestart, sch) =>
+      let n := Z.to_nat n in
+      let nflush := Z.to_nat nflush in
+      let nrestart := Z.to_nat nrestart in
+      let r := run_trace fx (sched_init (Z.to_nat poolsize) n nflush nrestart)
+                 (full_schedule n nflush nrestart sch) in
+      VL [VZ (flags_to_Z (snd r)); VL (map VZ (canon (untagged (out (fst r))) []))]
+  end.
+
+Definition run_sched := run_sched_fx true.
+(* the code before the flushing repair *)
+Definition run_sched_noflushing := run_sched_fx false.
+
+(* the code before the repair (Model/Gather.v part B) *)
+Definition run_sched_legacy (inp : Z * Z * Z * Z * list Z) : V :=
+  match inp with
+  | (poolsize, n, nflush, _, sch) =>
       let n := Z.to_nat n in
       let nflush := Z.to_nat nflush in
       let r := run_trace0 (init0 (Z.to_nat poolsize) (seq 1 n) nflush)
@@ -61,18 +95,27 @@ Definition run_sched_legacy (inp : Z * Z * Z * list Z) : V :=
 (* suite "real": a real PeerConnection, no schedule control.  Pool size 1:
    gathering completes before the first SetLocalDescription; pool size 0: it
    starts in the first one; then `extra` further SetLocalDescription calls
-   after gathering is complete.  Observation: the OnICECandidate sequence. *)
-Definition run_real (inp : Z * Z * Z) : V :=
+   after gathering is complete.  restart = 1: after that an ICE restart
+   (CreateOffer with ICERestart, which gathers again, then SetLocalDescription);
+   restart = 2 (pool size 1 only): the ICE restart comes before the first
+   SetLocalDescription.  Observation: the OnICECandidate sequence. *)
+Definition run_real (inp : Z * Z * Z * Z) : V :=
   match inp with
-  | (poolsize, n, extra) =>
+  | (poolsize, n, extra, restart) =>
       let n := Z.to_nat n in
       let extra := Z.to_nat extra in
       let p := Z.to_nat poolsize in
-      let agent := repeat 0 (3 * n + 3) in
-      let fl j := repeat (S j) (n + 3) in
-      let sch := if Nat.ltb 0 p
-                 then agent ++ flat_map fl (seq 0 (S extra))
-                 else agent ++ flat_map fl (seq 0 extra) in
-      let nfl := if Nat.ltb 0 p then S extra else extra in
-      VL (map VZ (canon (out (run (init p (seq 1 n) nfl) sch)) []))
+      let restart := Z.to_nat restart in
+      let agent := repeat TAgent (3 * n + 3) in
+      let fl j := repeat (TFlush j) (2 * n + 4) in
+      let nfl0 := if Nat.ltb 0 p then S extra else extra in
+      let first := agent ++ flat_map fl (seq 0 nfl0) in
+      let sch :=
+        match restart with
+        | 0 => first
+        | 1 => first ++ [TRestart] ++ agent ++ fl nfl0
+        | _ => agent ++ [TRestart] ++ agent ++ flat_map fl (seq 0 (S nfl0))
+        end in
+      let more := if Nat.ltb 0 restart then [(seq (S n) n, true)] else [] in
+      VL (map VZ (canon (untagged (out (run true (init p (seq 1 n, true) more (S nfl0)) sch))) []))
   end.
